@@ -470,7 +470,16 @@ class Eval:
 
     def block(self, b):
         last = None
-        for s in b["stmts"]:
+        for i_, s in enumerate(b["stmts"]):
+            s0 = strip(s)
+            if s0 is not None and s0.get("k") == "if" and s0["el"] is None:
+                # guard clause `if c { return v; }`: the block's value is `if c { v } else { <rest> }`
+                th = strip(s0["th"])
+                while th is not None and th.get("k") == "blk" and len(th["b"]["stmts"]) + (1 if th["b"]["tail"] is not None else 0) == 1:
+                    th = strip((th["b"]["stmts"] or [th["b"]["tail"]])[0])
+                if th is not None and th.get("k") in ("ret", "break") and th.get("v") is not None:
+                    rest = {"k": "blk", "b": {"k": "block", "stmts": b["stmts"][i_ + 1:], "tail": b["tail"]}}
+                    return self.eval({"k": "if", "c": s0["c"], "th": th["v"], "el": rest})
             last = self.stmt(s)
         if b["tail"] is not None:
             return self.eval(b["tail"])
